@@ -318,6 +318,12 @@ func (db *MultiBucketBackend) ForceDeleteBucket(name string) error {
 }
 
 func (db *MultiBucketBackend) BucketExists(name string) (exists bool, err error) {
+	if err := gofakes3.ValidateBucketName(name); err != nil {
+		// Names like "." or ".." resolve to directories that do exist (the
+		// bucket root and its parent) but are not buckets:
+		return false, nil
+	}
+
 	db.lock.Lock()
 	defer db.lock.Unlock()
 	exists, err = afero.Exists(db.bucketFs, name)
